@@ -47,7 +47,9 @@ func vHarnessAolGenesisRoundTrip() {
 	}
 	rk := types.RecordCompositeKey{OwnerAddress: o, TopicName: t1, Offset: vNondetU64("offset")}
 	// empty record keys/values are legal
-	rec := types.Record{Key: vNondetBytes("rkey", 70), Value: vNondetBytes("rvalue", 100), NanoTimestamp: vNondetI64("rts"), WriterAddress: wStr}
+	// the record's writer is any account: it may have been removed from the writer list since
+	// (create-topic, add-writer, add-record, delete-writer is a reachable history)
+	rec := types.Record{Key: vNondetBytes("rkey", 70), Value: vNondetBytes("rvalue", 100), NanoTimestamp: vNondetI64("rts"), WriterAddress: vNondetAddr("recordWriter")}
 	hasR := true
 	if hasR {
 		k1.SetRecord(ctx1, rk, rec)
